@@ -470,7 +470,22 @@ func errorEdgeBlocks(call *ssa.Call) map[*ssa.BasicBlock]bool {
 		if !ok {
 			continue
 		}
-		isErrCmp := (bo.X == errv && flow.IsNilConst(bo.Y)) || (bo.Y == errv && flow.IsNilConst(bo.X))
+		isE := func(v ssa.Value) bool {
+			if v == errv {
+				return true
+			}
+			// the error merged with the errors of sibling branches (if multi { …, err = read1 } else { …, err = read2 })
+			// and tested once after the join
+			if ph, ok := v.(*ssa.Phi); ok {
+				for _, e := range ph.Edges {
+					if e == errv {
+						return true
+					}
+				}
+			}
+			return false
+		}
+		isErrCmp := (isE(bo.X) && flow.IsNilConst(bo.Y)) || (isE(bo.Y) && flow.IsNilConst(bo.X))
 		if !isErrCmp {
 			continue
 		}
